@@ -430,28 +430,8 @@ func runC12(p *core.Program, r *core.Report) {
 	}
 	if fn := c.fn("gogu.Reverse"); fn != nil {
 		sl := ssa.Value(fn.Params[0])
-		okSwap, nSt := swapOnly(fn, sl)
-		c.ob("PV4", "gogu.Reverse", "only transpositions", c.fpos(fn), okSwap && nSt == 2, "the only stores must be the two crossed stores of a swap sl[i], sl[j] = sl[j], sl[i]")
-		okLoop := false
-		x := newPathCtx(p)
-		for _, b := range fn.Blocks {
-			iff := path.BlockIf(b)
-			if iff == nil {
-				continue
-			}
-			cd, ok := path.CondOf(iff)
-			// i < j (i <= j only adds the swap of the middle cell with itself)
-			if !ok || (cd.Op != token.LSS && cd.Op != token.LEQ) || cd.Neg {
-				continue
-			}
-			pi, ok1 := cd.X.(*ssa.Phi)
-			pj, ok2 := cd.Y.(*ssa.Phi)
-			if ok1 && ok2 && phiStep(pi) == +1 && phiStep(pj) == -1 {
-				if k, ok := path.IntConst(phiInit(pi)); ok && k == 0 && x.path(phiInit(pj)) == "(len(sl)-1)" {
-					okLoop = true
-				}
-			}
-		}
+		okSwap, okLoop := reversesInPlace(c, fn, sl)
+		c.ob("PV4", "gogu.Reverse", "only transpositions", c.fpos(fn), okSwap, "the only stores must be the two crossed stores of a swap sl[i], sl[j] = sl[j], sl[i]")
 		c.ob("PV4", "gogu.Reverse", "two-pointer walk over the whole slice", c.fpos(fn), okLoop, "the swap loop must run i from 0 upward and j from len-1 downward while i < j")
 	}
 	checkReverseStr(c)
@@ -616,3 +596,32 @@ func isStrideInduction(v ssa.Value, size *ssa.Parameter) bool {
 }
 
 var _ = core.Canon
+
+// reversesInPlace: the only stores of fn through sl are the two crossed stores of a swap
+// (okSwap), made in a two-pointer walk with i from 0 upward and j from len(sl)-1
+// downward while i < j (okLoop).
+func reversesInPlace(c rc, fn *ssa.Function, sl ssa.Value) (okSwap, okLoop bool) {
+	sw, nSt := swapOnly(fn, sl)
+	okSwap = sw && nSt == 2
+	x := newPathCtx(c.p)
+	want := "(len(" + x.path(sl) + ")-1)"
+	for _, b := range fn.Blocks {
+		iff := path.BlockIf(b)
+		if iff == nil {
+			continue
+		}
+		cd, ok := path.CondOf(iff)
+		// i < j (i <= j only adds the swap of the middle cell with itself)
+		if !ok || (cd.Op != token.LSS && cd.Op != token.LEQ) || cd.Neg {
+			continue
+		}
+		pi, ok1 := cd.X.(*ssa.Phi)
+		pj, ok2 := cd.Y.(*ssa.Phi)
+		if ok1 && ok2 && phiStep(pi) == +1 && phiStep(pj) == -1 {
+			if k, ok := path.IntConst(phiInit(pi)); ok && k == 0 && x.path(phiInit(pj)) == want {
+				okLoop = true
+			}
+		}
+	}
+	return okSwap, okLoop
+}
